@@ -4820,3 +4820,24 @@ for _p, _r in (('C02', 'C02.1'), ('C05', 'C05.4')):
     M(_p, 'trailer-length-sum-leaves-one-octet-out', PGP, _TRL, _TRL_NEW % 'len(hashed) + len(fixed[:3])', _r)
     M(_p, 'trailer-length-sum-counts-fixed-twice', PGP, _TRL, _TRL_NEW % 'len(fixed) + len(hashed) + len(fixed)', _r)
     M(_p, 'trailer-length-sum-omits-hashed-area', PGP, _TRL, _TRL_NEW % 'len(fixed) + 2', _r)
+
+# ---- new attributes in __init__ are classified by analysis (no frozen table, no exit 2)
+SIGINIT = "        super(PGPSignature, self).__init__()\n        self._signature = None\n\n    def __bytearray__(self):\n        return self._signature.__bytearray__()\n"
+KEYINIT = "        self._self_verified = None\n        self._require_usage_flags = True\n\n    def __bytearray__(self):\n        _bytes = bytearray()\n"
+SIGCOPY = "        sig |= copy.copy(self._signature)\n        return sig"
+T('C14', 'twin-init-cache-attribute', PGP, SIGINIT,
+  "        super(PGPSignature, self).__init__()\n        self._signature = None\n        self._bytes_memo = None\n\n    def __bytearray__(self):\n        if self._bytes_memo is None:\n            self._bytes_memo = self._signature.__bytearray__()\n        return bytearray(self._bytes_memo)\n")
+T('C14', 'twin-init-logger-attribute', PGP, KEYINIT,
+  "        self._self_verified = None\n        self._require_usage_flags = True\n        self._log = warnings\n        self._export_count = 0\n\n    def __bytearray__(self):\n        _bytes = bytearray()\n")
+T('C14', 'twin-init-onepass-cache', PGP, SIGINIT, "        super(PGPSignature, self).__init__()\n        self._signature = None\n        self._onepass = None\n\n    def __bytearray__(self):\n        return self._signature.__bytearray__()\n")
+T('C14', 'twin-init-state-attribute-carried', PGP, SIGINIT,
+  "        super(PGPSignature, self).__init__()\n        self._signature = None\n        self._trailer = b''\n\n    def set_trailer(self, octets):\n        self._trailer = bytes(octets)\n\n    def __bytearray__(self):\n        return self._signature.__bytearray__() + self._trailer\n",
+  more=[(PGP, SIGCOPY, "        sig |= copy.copy(self._signature)\n        sig._trailer = self._trailer\n        return sig")])
+M('C14', 'init-state-attribute-not-copied', PGP, SIGINIT,
+  "        super(PGPSignature, self).__init__()\n        self._signature = None\n        self._trailer = b''\n\n    def set_trailer(self, octets):\n        self._trailer = bytes(octets)\n\n    def __bytearray__(self):\n        return self._signature.__bytearray__() + self._trailer\n", 'C14.4')
+M('C14', 'key-init-state-attribute-not-copied', PGP, KEYINIT,
+  "        self._self_verified = None\n        self._require_usage_flags = True\n        self._extra_packets = []\n\n    def add_packet(self, pkt):\n        self._extra_packets = self._extra_packets + [pkt]\n\n    def __bytearray__(self):\n        _bytes = bytearray()\n",
+  'C14.4', more=[(PGP, "        # subkeys\n        for sk in self._children.values():\n            _bytes += sk.__bytearray__()\n\n        return _bytes", "        # subkeys\n        for sk in self._children.values():\n            _bytes += sk.__bytearray__()\n        for pkt in self._extra_packets:\n            _bytes += pkt.__bytearray__()\n\n        return _bytes")])
+M('C14', 'uid-init-rank-attribute-not-copied', PGP, "        super(PGPUID, self).__init__()\n        self._uid = None\n        self._signatures = SorteDeque()\n",
+  "        super(PGPUID, self).__init__()\n        self._uid = None\n        self._signatures = SorteDeque()\n        self._pinned = False\n", 'C14.4',
+  more=[(PGP, "    def __lt__(self, other):  # pragma: no cover\n        if self.is_uid == other.is_uid:", "    def pin(self, value=True):\n        self._pinned = bool(value)\n\n    def __lt__(self, other):  # pragma: no cover\n        if self._pinned != other._pinned:\n            return self._pinned\n        if self.is_uid == other.is_uid:")])
